@@ -39,7 +39,7 @@ def gen(ctx):
         nmax = max(len(f["targets"]) for f in files)
         chunks = {}
         if rng.random() < 0.6:
-            chunks["predict"] = rng.choice([1, 2, 3, 7, nmax - 1, nmax, nmax + 1])
+            chunks["predict"] = rng.choice([1, 2, 3, 7, nmax - 1, nmax, nmax + 1, nmax // 2, nmax // 2 + 1, nmax // 3 + 1])
         if rng.random() < 0.6:
             chunks["trainread"] = rng.choice([1, 2, 3, 7, nmax - 1, nmax, nmax + 1])
         chunks = {a: max(1, b) for a, b in chunks.items()}
@@ -166,6 +166,24 @@ def compare(case, got):
                 oneclass = oneclass or not any(tg) or all(tg)
             if capped or oneclass:
                 return ("err", "OneClassTrainingSet"), ("err", "OneClassTrainingSet")
+        # brew raised after the fold models were fitted: with the column every fold model learned (recorded at fit time) the
+        # model computes the scores and tells whether the calibration of some fold really has no accepted target
+        if obs["error"] == "RuntimeError" and obs.get("est_fits") and case.get("learner") in (None, "transparent") \
+                and case.get("max_iter", 1) == 1:
+            cols = []
+            for f in range(case["folds"]):
+                comp = set(ms[1]["complements"][f])
+                cand = [col for ids, col in obs["est_fits"] if ids and set(ids) <= comp]
+                others = [col for ids, col in obs["est_fits"] if ids and set(ids) <= comp
+                          and not any(set(ids) <= set(ms[1]["complements"][g]) for g in range(case["folds"]) if g != f)]
+                pick = others or cand
+                cols.append(pick[0] if len(set(pick)) == 1 else None)
+            if all(c is not None for c in cols):
+                sm = _scores_model(case, dict(obs, cols=cols, seen=None))
+                if any(s_[0] == "err" and s_[1] == "RuntimeError" for s_ in sm):
+                    return ("err", "RuntimeError"), impl
+                if all(s_[0] == "ok" for s_ in sm):
+                    return ("ok", {"note": "every fold accepts a target at test_fdr: brew should have returned scores"}), impl
         # cannot compute scores without the estimator columns; predict the error kind only for calibration
         return ("err", "RuntimeError"), impl
     if ms[0] == "err":
